@@ -150,6 +150,32 @@ func checkC07(r *harness.Run) harness.Coverage {
 		compExprs = append(compExprs, exprFromText("["+x+"] == `[[]]`"), exprFromText("{k: "+x+"} == `{\"k\":[]}`"), exprFromText("contains(`[[], {}]`, "+x+")"), exprFromText("contains(["+x+"], `[]`)"))
 	}
 	run(compExprs, univ.Js(`{"o":{},"e":[]}`, `{"o":{"a":1},"e":[1]}`, `{"o":{"a":[]},"e":[[]]}`, `{"o":null,"e":null}`, `[1]`))
+	// (6) operands that ALIAS each other: a document built in Go may hold the same array or object twice, or two
+	// slices of one backing array (prefixes, suffixes, different lengths). Equality is equality of VALUES: an
+	// "identical container" shortcut must look at the length, and must not be taken for different windows
+	{
+		var aliasDocs []interface{}
+		for _, backing := range [][]interface{}{univ.Js(`1`, `2`, `3`), univ.Js(`"a"`, `"a"`, `"a"`), univ.Js(`[1]`, `[1]`, `{"k":1}`), univ.Js(`null`, `null`), univ.Js(`1`)} {
+			n := len(backing)
+			for i := 0; i <= n; i++ {
+				for j := 0; j <= n; j++ {
+					aliasDocs = append(aliasDocs, map[string]interface{}{"a": backing[:i:n], "b": backing[:j:n]}, map[string]interface{}{"a": backing[i:], "b": backing[j:]}, map[string]interface{}{"a": backing[i:], "b": backing[:j]})
+				}
+			}
+			m := map[string]interface{}{"k": backing, "j": backing[:1]}
+			aliasDocs = append(aliasDocs, map[string]interface{}{"a": m, "b": m}, map[string]interface{}{"a": m, "b": map[string]interface{}{"k": backing, "j": backing[:1]}}, map[string]interface{}{"a": []interface{}{m, m}, "b": []interface{}{m, backing}})
+		}
+		var aliasExprs []exprCase
+		for _, e := range []string{"a == b", "a != b", "b == a", "[a] == [b]", "{x: a} == {x: b}", "contains([a], b)", "contains([b, a], a)", "a == a", "a[0] == b[0]", "a[1:] == b", "a == b[1:]", "[?a == b]", "!(a == b)", "a == b && 't' || 'f'",
+			"a < b", "a <= b", "a[:1] == b[:1]", "a[::-1] == b[::-1]", "to_array(a) == to_array(b)", "not_null(a) == b", "a.k == b.k", "a.k == a.j", "a[0] == a[1]", "[a, b][0] == [a, b][1]", "sort_by([a, b], &length(@))[0] == a", "length(a) == length(b)"} {
+			aliasExprs = append(aliasExprs, exprFromText(e))
+		}
+		stAlias := conform(r, aliasExprs, aliasDocs, conformOpts{keepAliases: true})
+		total.add(stAlias)
+		nexpr += len(aliasExprs)
+		ndocs += len(aliasDocs)
+		r.Note("aliased_operand_documents", len(aliasDocs))
+	}
 	r.Note("computed_operands", len(computed))
 	finishConform(r, total, nexpr, ndocs)
 	r.Note("operand_values", len(W))
